@@ -7,7 +7,7 @@ LEVEL = "model_checking"
 def run(tier):
     return _common.corpus_property(
         "C12", tier, LEVEL, models=_common.TICC_MODELS[tier],
-        need=('repopulated','biased_covariance','rounds_2plus'),
+        need=('repopulated','biased_covariance','rounds_2plus','level_far_above_spread'),
         rule="""every statistics / submit event of every completed run: TLC derives membership from the logged labels, requires the O1 observation for that membership and estimator, and equality of the covariance digest handed to the optimiser with this round's digest for the same cluster; non-trivial = distinct (run, round) pairs""",
         extra=_common.scripted_extra("C12"),
         nontrivial=lambda t: (t['hdr']['id'],))
